@@ -438,6 +438,9 @@ def run(ctx: Ctx) -> None:
             o_.rule = "C17.R10/" + o_.rule
         for k_ in [k_ for k_ in rep.floors if k_.startswith("C12.")]:
             rep.floors["C17.R10/" + k_] = rep.floors.pop(k_)
+    if ctx.report.prop == "C17":
+        from .common import share_rules as _share8
+        _share8(ctx, "C06", "C17.R17", ['C06.R3'], 'whatever the kind of codec that wrote it, the blob is renamed into place before its metadata is published: a result written by a user-registered location codec is present and read back')
 
 
 def type_key_names_the_type(ctx: Ctx, rule: str) -> int:
